@@ -36,6 +36,10 @@ class C12(Hist1Prop):
             "containers (and title / name / axis_names edits) on 1-D / 2-D / 3-D / 4-D / adaptive / transformed histograms and "
             "collections before one derivation of the property's list, then in-place edits inside the nested values through "
             "the source and through the result; containers shared by identity are observed and then edited. "
+            "One case in 16 (stream:opaque_meta) and, enumerated, every (class, derivation) pair once more: meta-data values that "
+            "are tuples / namedtuples / frozensets holding lists or dicts (two levels) with NO plain mutable value beside them, "
+            "and mixed dictionaries with dataclass / SimpleNamespace / deque / bytearray / set / ndarray values and one object "
+            "under two keys; the inner object is edited in place through the wrapper on source and on result. "
             "non-trivial = the mutation really changed its target; distinct = op-list hash")
     FIELDS = None
     TOL = Fraction(1, 10**5)   # float32 contents after normalisation: independence, not rounding, is the subject
@@ -48,6 +52,10 @@ class C12(Hist1Prop):
         if k % 8 == 5:
             # nested mutable meta-data values x every derivation x every histogram class (c12_meta; oracle only)
             return c12_meta.gen(rng)
+        if k % 16 == 7:
+            # mutable objects hidden inside immutable wrappers (tuples / namedtuples / frozensets), dictionaries holding only
+            # such values, user classes / SimpleNamespace / deque / bytearray / set / ndarray values (c12_meta; oracle only)
+            return c12_meta.gen(rng, flavour="opaque")
         if rng.random() < 0.4:
             return self.gen_nd(rng)
         b, pairs, w = history1.small_bins(rng, adaptive_share=0.45)
